@@ -20,7 +20,7 @@ def pregen(check):
 
 CFG = {
     "id": "C15",
-    "lean_modules": ["GeomV.C15.Proofs", "GeomV.C15.Ties"],
+    "lean_modules": ["GeomV.C15.Proofs", "GeomV.C15.ProofsBlocks", "GeomV.C15.ProofsFloat", "GeomV.C15.Ties"],
     "pregen": pregen,
     "exe": "geomv_c15",
     "go_cmd": "c15",
@@ -31,7 +31,11 @@ CFG = {
         "C15_false_cases", "C15_false_type", "C15_false_count", "C15_false_vertex_count", "C15_false_no_partner",
         "C15_false_displaced_vertex", "C15_false_reversed", "C15_false_displaced_ring_vertex",
         "C15_false_displaced_member", "C15_ring_index_eq_rotation",
-        "C15_tie_similar", "C15_tie_pointSimilar"]],
+        "C15_tie_similar", "C15_tie_pointSimilar",
+        "C15_model_eq_spec_blocks", "C15_greedy_iff_perfect_blocks", "C15_false_displaced_copy",
+        "C15_float_false", "C15_float_true", "C15_float_exact", "C15_float_symm", "truncInt_rounding",
+        # compiled forms used by the judge executable (@[csimp]): proved equal to the Spec definitions
+        "Spec.near_eq_C", "Spec.ringNear_eq_C", "Spec.existsMatching_eq_C"]],
     "trusted_base": [
         "Lean 4.33.0 kernel; axioms of every theorem printed by #print axioms must be within {propext, Classical.choice, Quot.sound}",
         "model lean/GeomV/C15/Model.lean is tied to /repo/similar.go by the correspondence run (both argument orders of every generated pair, exact comparison of the boolean answers) on every check",
